@@ -55,6 +55,13 @@ ASSUMPTIONS.append(
     "(callees, keyword names and subset levels are not variables), so these columns must neither appear "
     "in var_names nor remove a row under 'drop' nor raise under 'error' nor turn an entry into NaN under "
     "'pass'; the callee itself is resolved in the namespace, never in the data")
+ASSUMPTIONS.append(
+    "the pass rule is judged for the RESPONSE matrix as well as for the common / group matrices: under "
+    "'pass' a row whose (numeric) response variable is missing must carry NaN in the response column(s) "
+    "and every other row the entry of the reference run (missing values filled in), by the same "
+    "Spec.C09.passRule with the response term's variables as column variables; for a share of the cases "
+    "(own PRNG stream) the numeric response column `y` holds whole numbers only (a count-like response: "
+    "float64, or int64 until a missing value is written into it), otherwise halves")
 TRUSTED = ["pandas isna / boolean row selection (modelled by incompleteRows / keepRows)"]
 
 TERMS = ["x", "z", "f", "g", "f:x", "np.exp(z / 4)", "I(x + z)", "{z * 2}", "C(f)", "center(x)",
@@ -369,6 +376,9 @@ def run(formula, df, action):
     for part in ("response", "common", "group"):
         o = getattr(dm, part)
         out[part] = None if o is None else mat(o.design_matrix)
+    if dm.response is not None:
+        a = np.asarray(dm.response.design_matrix)
+        out["col_vars_response"] = [sorted(dm.response.term.term.var_names)] * (1 if a.ndim == 1 else a.shape[1])
     if dm.common is not None:
         cv = []
         for t in dm.common.terms.values():
@@ -398,6 +408,8 @@ def explore(tier, seed, res=None, replay=None):
                 "huge finite values in used float columns (infinite is not missing); "
                 "for half of the cases unused columns named like the functions the formula calls, with "
                 "missing values in rows complete in the used variables (callees are not variables); "
+                "the pass rule is judged on the response matrix too, the numeric response holding whole "
+                "numbers only (float64 / int64) in a share of the cases; "
                 "non-trivial = a case with at least one incomplete used row; distinct by (formula, "
                 "pattern, plain / history / infinite twin)")
     n_cases = 300 if tier == "quick" else 8000
@@ -410,9 +422,20 @@ def explore(tier, seed, res=None, replay=None):
         for _ in range(n_cases):
             cases.append((None, len(cases)))
     jobs = []
+    whole_by_path = {}
     for f, path in cases:
         r = rng_for(seed, "c09", path)
         df = make_frame(r)
+        # count-like response: whole numbers only (own PRNG stream; the other draws are unchanged)
+        rw = rng_for(seed, "c09", path, "whole-response")
+        u_whole = rw.random()
+        whole = None
+        if (u_whole < 0.45 if replay is None else "whole_number_response" in replay):
+            as_int = rw.random() < 0.3
+            shift = rw.choice([0, 0, 8])                 # counts >= 0 now and then
+            df["y"] = (df["y"] * 2 + shift).astype("int64" if as_int else "float64")
+            whole = {"dtype": "int64" if as_int else "float64", "values": "2*y + %d" % shift}
+        whole_by_path[path] = whole
         pointwise = r.random() < 0.45
         pool = POINTWISE if pointwise else TERMS
         formula = f
@@ -483,6 +506,8 @@ def explore(tier, seed, res=None, replay=None):
     for (formula, path, data, pointwise, cols, hist, tied, infw, callee), ro in zip(jobs, rows_out):
         res.evaluations += 1
         case = {"formula": formula, "seed_path": path, "missing_in": cols}
+        if whole_by_path.get(path):
+            case["whole_number_response"] = whole_by_path[path]
         if callee:
             case["unused_columns_named_like_called_functions"] = {
                 c: {"missing_at_positions": rows} for c, rows in callee.items()}
@@ -581,10 +606,16 @@ def explore(tier, seed, res=None, replay=None):
             else:
                 miss = [[c for c in NUM if c in data.columns and pd.isna(data[c].iloc[i])]
                         for i in range(len(data))]
-                for p, cvk in (("common", "col_vars_common"), ("group", "col_vars_group")):
+                for p, cvk in (("response", "col_vars_response"), ("common", "col_vars_common"),
+                               ("group", "col_vars_group")):
                     if ps[p] is not None:
                         parts.append({"rule": "pass", "a": ref[p], "b": ps[p], "col_vars": ps[cvk],
                                       "row_missing": miss, "what": "pass:" + p})
+                if ps["response"] is not None:
+                    res.count("pass rule judged on the response matrix")
+                    if any("y" in m for m in miss) and "y" in ps["col_vars_response"][0]:
+                        res.count("... with a missing numeric response"
+                                  + (" (whole-number response)" if whole_by_path.get(path) else ""))
                 res.count("pass_cases")
         spec_reqs.append({"op": "c09_spec", "parts": parts})
         owners.append((case, problems, parts))
